@@ -73,6 +73,8 @@ type WorldSpec struct {
 	NameVariant  bool       `json:"name_variant,omitempty"`
 	ExtraFirst   bool       `json:"extra_first,omitempty"` // additional embedded certificates placed before the signer's certificate
 	EmbedCSCA    bool       `json:"embed_csca,omitempty"`  // the CSCA certificate is embedded as well
+	CardSecVariant   int    `json:"cardsec_variant,omitempty"`    // 0 as the SOD; 1 signed by a later DS generation; 2 by an earlier one; 3 no signing-time attribute
+	CardSecExtraKeys int    `json:"cardsec_extra_keys,omitempty"` // further chip authentication public keys (other domain parameters, own key ids) next to the PACE-CAM key
 	HashOrder    int        `json:"hash_order,omitempty"`  // order of the data group hash list: 0 ascending, 1 descending, 2 seeded shuffle, 3 one adjacent swap, 4 one entry moved to the end
 	Untrusted    bool       `json:"untrusted,omitempty"`      // CSCA not in the terminal's trust store
 	DecoyAnchors int        `json:"decoys,omitempty"`         // other countries' / same-SKI anchors in the store
@@ -285,10 +287,55 @@ func Build(spec WorldSpec) *World {
 		pers.CAKeys = append(pers.CAKeys, chip.CAKey{Curve: k.Curve, D: k.D, X: k.X, Y: k.Y})
 		var camKeyID *int64
 		csInfos := append([][]byte{}, paceInfos...)
+		if spec.CardSecExtraKeys > 0 {
+			// several keys: each carries a key id (9303-11 9.2.6); the others sit on other domain parameters
+			xr := core.NewRng(core.SubSeed(spec.Seed, "cardsec-extra-keys"))
+			id := int64(xr.Range(5, 90))
+			camKeyID = &id
+			for i := 0; i < spec.CardSecExtraKeys; i++ {
+				op := chip.AllParamIDs[xr.Intn(len(chip.AllParamIDs))]
+				if op == camParam {
+					op = chip.AllParamIDs[(xr.Intn(len(chip.AllParamIDs)-1)+1+indexOf(chip.AllParamIDs, camParam))%len(chip.AllParamIDs)]
+				}
+				ok := pki.NewECKey(op, xr, false)
+				oid := id + int64(i) + 1
+				if xr.Bool() {
+					oid = id - int64(i) - 1
+				}
+				csInfos = append(csInfos, lds.ChipAuthPubKeyInfo(chip.OidPKECDH, lds.StdDomainSPKI(op, ok.PointBytes()), &oid))
+			}
+		}
 		csInfos = append(csInfos, lds.ChipAuthPubKeyInfo(chip.OidPKECDH, lds.StdDomainSPKI(camParam, k.PointBytes()), camKeyID))
+		csSigner, csCert, csTime := w.DSKey, w.DSCert, signingTime(spec, w.SignTime)
+		if spec.CardSecVariant == 1 || spec.CardSecVariant == 2 {
+			// EF.CardSecurity signed by another document signer generation whose validity does not contain the SOD's signing time
+			xr := core.NewRng(core.SubSeed(spec.Seed, "cardsec-signer"))
+			nb, na := dsNotAfter.AddDate(0, 0, 1), dsNotAfter.AddDate(3, 0, 0)
+			if spec.CardSecVariant == 2 {
+				nb, na = w.T0.AddDate(0, 0, 1), t2.AddDate(0, 0, -1)
+			}
+			if nb.Before(cscaNotBefore) {
+				nb = cscaNotBefore
+			}
+			if na.After(cscaNotAfter) {
+				na = cscaNotAfter
+			}
+			if nb.Before(na) {
+				csSigner = spec.DS.make(xr)
+				csCert = pki.Issue(pki.CertSpec{
+					Serial: new(big.Int).SetUint64(xr.U64() >> 1), Issuer: cscaName, Subject: pki.CountryName(w.Alpha2, "Sim Gov", "DS other generation"), NotBefore: nb, NotAfter: na,
+					Key: csSigner, SKI: pki.SKIOf(csSigner), AKI: cscaSKI, OmitBC: true, PathLen: -1, KeyUsageBits: []int{pki.KUDigitalSignature},
+				}, w.CSCAKey, spec.CSCAScheme.scheme(), xr)
+				mid := nb.Add(na.Sub(nb) / 2)
+				csTime = &mid
+			}
+		}
+		if spec.CardSecVariant == 3 {
+			csTime = nil
+		}
 		w.CardSec = pki.BuildSignedData(pki.SignedDataSpec{
 			EContentType: pki.OidSecurityObject, EContent: lds.SecurityInfos(csInfos, true), DigestAlg: spec.DSScheme.Hash, Scheme: spec.DSScheme.scheme(),
-			Signer: w.DSKey, SignerCert: w.DSCert, SIDForm: spec.SIDForm, SigningTime: signingTime(spec, w.SignTime),
+			Signer: csSigner, SignerCert: csCert, SIDForm: spec.SIDForm, SigningTime: csTime,
 		}, rng)
 		w.MF[chip.FidCardSecurity] = w.CardSec.DER
 	}
@@ -481,3 +528,12 @@ func (w *World) NewChip() *chip.Chip {
 
 // CSCAScheme2 returns the pki.Scheme the CSCA signs certificates with.
 func (s WorldSpec) CSCAScheme2() pki.Scheme { return s.CSCAScheme.scheme() }
+
+func indexOf(xs []int, v int) int {
+	for i, x := range xs {
+		if x == v {
+			return i
+		}
+	}
+	return 0
+}
